@@ -49,7 +49,9 @@ def enc(kind, a, b, text):
 def rand_text(rng, n):
     out = b''
     while len(out) < n:
-        ch = rng.choice(['a', 'b', '/', '.', 'Z', '0', ' ', 'é', '日', 'ß']).encode()
+        # incl. text that is valid UTF-8 but not in a Unicode normal form (decomposed accents as HFS+ stores them, the
+        # Angstrom and Ohm signs, a compatibility ideograph, a non-BMP character): the text is shown as the kernel wrote it
+        ch = rng.choice(['a', 'b', '/', '.', 'Z', '0', ' ', 'é', '日', 'ß', 'e\u0301', '\u212b', '\u2126', '\uf900', '\U0001fae8']).encode()
         if len(out) + len(ch) <= n:
             out += ch
         else:
@@ -98,8 +100,15 @@ def run(ctx, model_ok):
     # every syscall that shows more than one path is always included (they reassemble several lookups of one window)
     multi = [k for k in path_keys if any(t in R.toks_text(k) for t in ('PSecond', 'PNth 1', 'PLast'))]
     for key in (multi + rng.sample([k for k in path_keys if k not in multi], 8) if ctx.quick() else path_keys):
-        for nl in (0, 1, 2, 3):
-            paths = [(rng.randint(1, 999), rand_text(rng, rng.choice([3, 24, 25, 57, 90, 184]))) for _ in range(nl)]
+        for nl in (0, 1, 2, 3, 'same-tail', 'same'):
+            if nl == 'same-tail':       # two lookups whose last chunks are the same bytes (and, under a coarse clock, the same tick)
+                tail = rand_text(rng, rng.choice([1, 5, 32]))
+                paths = [(rng.randint(1, 999), rand_text(rng, 24) + tail) for _ in range(3)]
+            elif nl == 'same':          # the same path looked up twice (rename("a", "a")), then another one
+                one = (rng.randint(1, 999), rand_text(rng, rng.choice([3, 24, 25, 57])))
+                paths = [one, one, (rng.randint(1, 999), rand_text(rng, 9))]
+            else:
+                paths = [(rng.randint(1, 999), rand_text(rng, rng.choice([3, 24, 25, 57, 90, 184]))) for _ in range(nl)]
             first = dc.in_domain_first(R, key, rng)
             evs = [[7, R.code_of[key], 1, first]]
             for vid, text in paths:
@@ -107,6 +116,8 @@ def run(ctx, model_ok):
                     evs.append([7, lookup, q, ws])
                     if rng.random() < 0.4:                      # unrelated same-thread records in between
                         evs.append([7, R.code_of['BSC_getpid'], rng.choice([0, 3]), [1, 2, 3, 4]])
+                if rng.random() < 0.4:      # a record whose id the code table does not know, with a payload, is not a lookup either
+                    evs.append([7, 0x0a0b0c00, rng.choice([0, 1, 2, 3]), [0x2f2f2f2f41414141, 0x4242424242424242, 0x43, 0x44]])
                 if 'VFS_LOOKUP_DONE' in R.code_of and rng.random() < 0.6:   # the kernel's lookup-done notice is not a lookup
                     evs.append([7, R.code_of['VFS_LOOKUP_DONE'], 0, [vid, 0, 0, 0]])
             evs.append([7, R.code_of[key], 2, [0, 5, 0, 0]])
@@ -115,7 +126,7 @@ def run(ctx, model_ok):
             exps.append((key, paths, first))
             wevs.append([[c, q, ws, t] for t, c, q, ws in evs])
             # the same records under a coarse clock (several records per tick, as on real hardware): same texts
-            tick = rng.choice([2, 4, 1000])
+            tick = 1000 if nl in ('same-tail', 'same') else rng.choice([2, 4, 1000])
             recs2 = [D.record(1 + j // tick, ws, t, c | q) for j, (t, c, q, ws) in enumerate(evs)]
             twins.append({'file': D.build_v2([(7, 1, b'p')], 0, recs2).hex(), 'cfg': {'color': False}, 'calls': ['traces']})
     out = vlib.run_impl('run_api.py', {'cases': reqs})['results']
